@@ -130,18 +130,23 @@ package schema
 
 //@ define accTail(c, ctx, p, k) = sch_accepts(c, ctx_allows(ctx), backing(p), off(p)+k, off(p)+len(p))
 
+// (the error for a member name that is not a child names that token - the first offending element - as the bad element)
+//@ define badChild(result, tok) = is(result, *mgmterror.UnknownElementApplicationError) && mgmt_badelem(result.(*mgmterror.UnknownElementApplicationError)) == tok
 //@ func (*tree).Validate
 //@   requires t != nil && t.node != nil && !sameArray(path, p)
 //@   modifies elems(path)
 //@   ensures iff(result == nil, len(p) == 0 || (inmap(t.node.children, p[0]) && accTail(t.node.children[p[0]], ctx, p, 1)))
+//@   ensures implies(len(p) != 0 && !inmap(t.node.children, p[0]), badChild(result, old(p[0])))
 //@ func (*container).Validate
 //@   requires n != nil && n.node != nil && ctx != nil && !sameArray(path, p)
 //@   modifies elems(path)
 //@   ensures iff(result == nil, ite(len(p) == 0, n.presence || ctx_allows(ctx), inmap(n.node.children, p[0]) && accTail(n.node.children[p[0]], ctx, p, 1)))
+//@   ensures implies(len(p) != 0 && !inmap(n.node.children, p[0]), badChild(result, old(p[0])))
 //@ func (*listEntry).Validate
 //@   requires n != nil && n.node != nil && ctx != nil && !sameArray(path, p)
 //@   modifies elems(path)
 //@   ensures iff(result == nil, ite(len(p) == 0, ctx_allows(ctx), inmap(n.node.children, p[0]) && accTail(n.node.children[p[0]], ctx, p, 1)))
+//@   ensures implies(len(p) != 0 && !inmap(n.node.children, p[0]), badChild(result, old(p[0])))
 //@ func (*leaf).Validate
 //@   requires n != nil && ctx != nil
 //@   modifies elems(path)
@@ -154,10 +159,12 @@ package schema
 //@   requires n != nil && n.node != nil && !sameArray(path, p)
 //@   modifies elems(path)
 //@   ensures iff(result == nil, len(p) != 0 && inmap(n.node.children, p[0]) && accTail(n.node.children[p[0]], ctx, p, 1))
+//@   ensures implies(len(p) != 0 && !inmap(n.node.children, p[0]), badChild(result, old(p[0])))
 //@ func (*ycase).Validate
 //@   requires n != nil && n.node != nil && !sameArray(path, p)
 //@   modifies elems(path)
 //@   ensures iff(result == nil, len(p) != 0 && inmap(n.node.children, p[0]) && accTail(n.node.children[p[0]], ctx, p, 1))
+//@   ensures implies(len(p) != 0 && !inmap(n.node.children, p[0]), badChild(result, old(p[0])))
 //@ func (*list).Validate
 //@   requires n != nil && n.node != nil && ctx != nil && len(n.keys) >= 1 && !sameArray(path, p)
 //@   modifies elems(path)
